@@ -151,3 +151,24 @@ M('dl_md5_prefix_compare', ['C20'], 'phylib/io/datasets.py',
 M('dl_retry_unbounded', ['C20'], 'phylib/io/datasets.py',
   "    if _check_md5_of_url(output_path, url) is False:\n        logger.debug(\"The checksum doesn't match: retrying the download.\")\n        r = _download(url, stream=True)\n        _save_stream(r, output_path)\n        if _check_md5_of_url(output_path, url) is False:\n            raise RuntimeError(\"The checksum of the downloaded file \"\n                               \"doesn't match the provided checksum.\")",
   "    while _check_md5_of_url(output_path, url) is False:\n        logger.debug(\"The checksum doesn't match: retrying the download.\")\n        r = _download(url, stream=True)\n        _save_stream(r, output_path)")
+# ---- C03 -----------------------------------------------------------------------------------
+M('wave_split_ab', ['C03'], 'phylib/io/traces.py',
+  "    a = nsw // 2\n    b = nsw - a\n", "    b = nsw // 2\n    a = nsw - b\n")
+M('wave_pad_wrong_side', ['C03'], 'phylib/io/traces.py',
+  "        w = np.vstack((w, np.zeros((nsw - w.shape[0], n_channels), dtype=w.dtype)))",
+  "        w = np.vstack((np.zeros((nsw - w.shape[0], n_channels), dtype=w.dtype), w))")
+M('iter_waveforms_chunk_side', ['C03'], 'phylib/io/traces.py',
+  "        ind = _find_chunks([i0, i1], spike_samples) == 0",
+  "        ind = (np.searchsorted([i0, i1], spike_samples, 'left') - 1) == 0")
+M('minus1_not_zeroed', ['C03'], 'phylib/io/traces.py',
+  "        w[:, channel_ids == -1] = 0\n", "        w[:, channel_ids < -1] = 0\n")
+M('export_header_shape', ['C03'], 'phylib/io/traces.py',
+  "    shape = (n_spikes, n_samples_waveforms, n_channels_loc)\n    dtype = traces.dtype if sample2unit is None else float",
+  "    shape = (n_spikes, n_channels_loc, n_samples_waveforms)\n    dtype = traces.dtype if sample2unit is None else float")
+M('store_lookup_cols_swapped', ['C03'], 'phylib/io/traces.py',
+  "            out[i, :, cols0] = spike_waveforms.waveforms[sid, :, cols1]", "            out[i, :, cols1] = spike_waveforms.waveforms[sid, :, cols0]")
+M('get_waveforms_store_ignores_ids', ['C03'], 'phylib/io/model.py',
+  "                return get_spike_waveforms(\n                spike_ids, channel_ids,", "                return get_spike_waveforms(\n                np.sort(spike_ids), channel_ids,")
+M('cbin_iter_last_chunk_dup', ['C03', 'C16'], 'phylib/io/traces.py',
+  "        yield reader.chunk_bounds[last_chunk], reader.chunk_bounds[last_chunk + 1]",
+  "        yield reader.chunk_bounds[max(0, last_chunk - 1)], reader.chunk_bounds[last_chunk + 1]")
